@@ -3,6 +3,12 @@ package main
 // C07: JOSE decoders (parse + verify/decrypt, JWK parsing) for the fuzz/mutation sweep.
 
 import (
+	"fmt"
+	"hash"
+	"encoding/binary"
+	"crypto/sha512"
+	"crypto/sha256"
+	"crypto/hmac"
 	"encoding/json"
 
 	"github.com/ossrs/go-oryx-lib/https/jose"
@@ -74,6 +80,39 @@ func c07JoseDecoders(c *h.Ctx) []decoder {
 				}
 			}
 		}
+	}
+	// F28 regression (fixed finding): CBC-HMAC objects with an EMPTY ciphertext and a tag that is valid for it — the
+	// sender chooses the content key, so anybody who can address the recipient can build one. They go in front of the
+	// seeds (and are decrypted with the key that validates the tag).
+	for _, ce := range []struct {
+		enc    jose.ContentEncryption
+		key    []byte
+		hf     func() hash.Hash
+		taglen int
+	}{{jose.A128CBC_HS256, ks.syms[32][0], sha256.New, 16}, {jose.A192CBC_HS384, append(append([]byte{}, ks.syms[32][0]...), ks.syms[16][0]...), sha512.New384, 24}, {jose.A256CBC_HS512, ks.syms[64][0], sha512.New, 32}} {
+		e, err := jose.NewEncrypter(jose.DIRECT, ce.enc, ce.key)
+		if err != nil {
+			continue
+		}
+		o, err := e.Encrypt([]byte("x"))
+		if err != nil {
+			continue
+		}
+		var f map[string]string
+		if json.Unmarshal([]byte(o.FullSerialize()), &f) != nil {
+			continue
+		}
+		iv, _ := jose.VerifBase64URLDecode(f["iv"])
+		aad := []byte(f["protected"])
+		mac := hmac.New(ce.hf, ce.key[:len(ce.key)/2])
+		mac.Write(aad)
+		mac.Write(iv)
+		al := make([]byte, 8)
+		binary.BigEndian.PutUint64(al, uint64(len(aad))*8)
+		mac.Write(al)
+		crafted := fmt.Sprintf(`{"protected":"%s","iv":"%s","ciphertext":"","tag":"%s"}`, f["protected"], f["iv"], jose.VerifBase64URLEncode(mac.Sum(nil)[:ce.taglen]))
+		jweTexts = append(jweTexts, []byte(crafted))
+		decKeys = append(decKeys, ce.key)
 	}
 	var jwkTexts [][]byte
 	for _, k := range []interface{}{ks.rsa[0], &ks.rsa[0].PublicKey, ecKey, &ecKey.PublicKey, ks.syms[32][0]} {
